@@ -84,6 +84,9 @@ def corpus_helpers(tier):
     # file names that are not in Unicode normalisation form C (what a macOS client sends), and code points that normalisation
     # replaces by others (OHM SIGN, ANGSTROM SIGN, conjoining Hangul jamo): a file name is text, handed on as it came
     out.append(([part("u", "e\u0301.txt", b"nfd"), part("e\u0301", None, "e\u0301 \u2126".encode()), part("v", "\u2126\u212b \u1112\u1161\u11ab.bin", b"\x00")], b, "utf-8", None, None))
+    # names with characters that some text functions take for line breaks (VT, FF, FS, GS, RS, NEL, LS, PS): inside a quoted
+    # parameter they are data; a header line ends at CR, LF or CRLF only
+    out.append(([part("a\u2028b\x1c", None, b"v"), part("u", "f\x0b\x0c\u0085\u2029.bin", b"d"), part("n\x1d\x1e", None, "\u2028".encode())], b, "utf-8", None, None))
     # a boundary made of the RFC 2046 characters that force the Content-Type parameter to be a quoted string (comma, equals sign,
     # parentheses, blank inside): the request accessors must hand the decoder the boundary the client wrote
     out.append(([part("f", None, "é, x".encode()), part("u", "a,b.txt", b"1,2\r\n")], b"=_Part,17_+(x) y", "utf-8", None, None))
